@@ -530,7 +530,8 @@ class UnitSystemManager(Singleton):
         ret_tuple = self.ConvertToCurrent(
             scalar.GetCategory(), scalar.GetUnit(), scalar.GetValue(), unit_database
         )
-        return Scalar(*ret_tuple)
+        converted_value, to_unit = ret_tuple
+        return Scalar(converted_value, to_unit, scalar.GetCategory())
 
 
 class _IdentityWrap:
